@@ -762,3 +762,22 @@ Proof.
   - unfold sub_tags. generalize ds. induction (s_dims q) as [|d l IH]; intros a; cbn [fold_left flat_map]; [reflexivity|].
     rewrite fold_left_app. destruct d; cbn [fold_left]; apply IH.
 Qed.
+(* a GROUP BY regular expression stands for exactly the matching tag keys, in the sorted order of the tag list, each
+   once - whatever the regex spells out and in whatever order *)
+Lemma expand_dims_regex orc dimensions p :
+  expand_dims orc dimensions [RegexLit p] = map (fun n => VarRef n DUnknown) (filter (fun n => o_re_match orc p n) dimensions).
+Proof. cbn [expand_dims flat_map]. rewrite app_nil_r. reflexivity. Qed.
+
+
+
+Lemma regex_dimension_spec orc dims ds p :
+  let tags := wild_dimensions true dims ds in
+  let out := filter (fun n => o_re_match orc p n) tags in
+  expand_dims orc tags [RegexLit p] = map (fun n => VarRef n DUnknown) out /\
+  StronglySorted (@le text text_ltb) out /\
+  (forall x, In x out <-> In x ds /\ o_re_match orc p x = true).
+Proof.
+  intros tags out. destruct (wild_dimensions_spec dims ds) as [Hs Hin]. split; [apply expand_dims_regex|]. split.
+  - apply filter_sorted. exact Hs.
+  - intros x. unfold out, tags. rewrite filter_In. specialize (Hin x). tauto.
+Qed.
